@@ -160,6 +160,10 @@ pub struct HandlerRunner {
     /// real-clock instants (the session cache reads the real clock): when a key first appeared, and when
     /// a node last sealed something for / was delivered something authentic from a peer address
     key_born: HashMap<[u8; 16], std::time::Instant>,
+    /// the two keys of one handshake; keys that belonged to a session of a node which had expired by the
+    /// time the node made its next session with that peer
+    key_pair: HashMap<[u8; 16], [u8; 16]>,
+    dead_keys: HashSet<(u64, [u8; 16])>,
     entry_use: HashMap<(u64, SocketAddr), std::time::Instant>,
     /// C13: challenges a node put on the wire: (node, challenge) -> (not issued before (ledger ms), address);
     /// and when a handshake was last delivered to a node from an address
@@ -241,6 +245,8 @@ impl Default for HandlerRunner {
             old_wire_mark: 0,
             step_start_ms: 0,
             key_born: HashMap::new(),
+            key_pair: HashMap::new(),
+            dead_keys: HashSet::new(),
             entry_use: HashMap::new(),
             chal_issued: HashMap::new(),
             key_ctr: HashMap::new(),
@@ -586,6 +592,8 @@ impl HandlerRunner {
                             self.keys.push((k.recipient_key, t_rcp));
                             self.key_born.insert(k.initiator_key, std::time::Instant::now());
                             self.key_born.insert(k.recipient_key, std::time::Instant::now());
+                            self.key_pair.insert(k.initiator_key, k.recipient_key);
+                            self.key_pair.insert(k.recipient_key, k.initiator_key);
                             self.obs += 1;
                             self.key_born_obs.insert(k.initiator_key, self.obs);
                             self.key_born_obs.insert(k.recipient_key, self.obs);
@@ -972,6 +980,22 @@ impl HandlerRunner {
                                 }
                             }
                             self.withheld = keep;
+                            // C15: the node seals under another key than before for this destination (a new
+                            // session); if its last exchange with that peer lies further back than the session
+                            // timeout (real clock, 100 ms to spare), the old session had expired: its keys are
+                            // gone for good, whatever they open arrives from a peer without a session
+                            if let Some(prev) = self.last_seal.get(&(from, d)).copied() {
+                                if prev != k {
+                                    if let Some(last) = self.entry_use.get(&(from, d)) {
+                                        if std::time::Instant::now().duration_since(*last).as_millis() as u64 > self.ttl_ms.saturating_add(100) {
+                                            self.dead_keys.insert((from, prev));
+                                            if let Some(o) = self.key_pair.get(&prev).copied() {
+                                                self.dead_keys.insert((from, o));
+                                            }
+                                        }
+                                    }
+                                }
+                            }
                             self.last_seal.insert((from, d), k);
                             // C15: between two uses of one session (sealing, or accepting something sealed by
                             // the peer) no more than the session timeout may pass; measured on the real clock,
@@ -1690,6 +1714,13 @@ impl HandlerRunner {
                             self.cur_stale_authentic = Some(idle);
                         }
                     }
+                    // (sealed under a key of a session that had expired before the recipient's current one)
+                    if let Some(k) = self.cur_key {
+                        if self.dead_keys.contains(&(tidx, k)) {
+                            stats.bump("h.message-under-keys-of-an-expired-session");
+                            self.cur_stale_authentic = Some(self.ttl_ms + 101);
+                        }
+                    }
                 }
                 // (a handshake datagram that answers no outstanding challenge of the recipient is dropped
                 // unread: it is neither a use of a session nor something that could end one)
@@ -2238,6 +2269,33 @@ pub fn gen_case(rng: &mut Rng, tier: &str, profile: &str, stats: &mut Stats) -> 
         ops.push(format!("hreq {} {} enr 2 {}", x, y, rng.range(1, 4)));
         ops.push("hsleep 220".into());
         // the peer's last datagram is presented again
+        ops.push(format!("hdel from{}", y));
+        ops.push("hquiet".into());
+        return ops;
+    }
+    if c15 && rng.chance(1, 6) {
+        // directed case: a request is in flight on a session that then idles beyond the timeout (the
+        // request's own timeout is longer); the peer, having lost its keys, challenges the request and
+        // a new session comes about; the answer it had sealed under the old keys turns up afterwards -
+        // the old session had expired, its keys accept nothing any more
+        stats.bump("gen.cases.c15-rekey-after-expiry-then-old-keys");
+        let x = rng.range(1, 2);
+        let y = 3 - x;
+        ops.push(format!("hworld 2 1 1000 {} 300", rng.range(2, 3)));
+        ops.push(format!("hreq {} {} enr 1 1", x, y));
+        for _ in 0..2 { ops.push("hdel next".into()); }
+        ops.push(format!("hwru {} next known", y));
+        for _ in 0..3 { ops.push("hdel next".into()); }
+        ops.push(format!("hresp {} next auto", y));
+        ops.push("hdel next".into());
+        ops.push(format!("hreq {} {} enr 2 {}", x, y, rng.range(1, 4)));
+        ops.push("hdel next".into());
+        ops.push(format!("hresp {} next auto", y));
+        ops.push("hdel skip".into());
+        ops.push("hsleep 460".into());
+        ops.push(format!("hcraft whoareyou {} r 0", x));
+        ops.push("hdel last".into());
+        ops.push("hdel skip".into());
         ops.push(format!("hdel from{}", y));
         ops.push("hquiet".into());
         return ops;
